@@ -8,6 +8,7 @@ CONSTANTS
   MaxReq = 2
   MaxBatch = 1
   Hist = TRUE
+  Deliveries = {"single", "pipelined", "fragmented"}
   SplitReg = TRUE
 INVARIANTS TypeOK Partition NextRequest
 PROPERTIES P_C20
